@@ -29,7 +29,7 @@ fn observe<S: Source>(mode: u8, ps: &[Prog], mut src: S, left: impl FnOnce(&mut 
 }
 
 /// a random segmentation of `data` as a (possibly nested, possibly indefinite) BER octet string
-fn segment(rng: &mut Rng, data: &[u8], depth: u32) -> Os {
+pub fn segment(rng: &mut Rng, data: &[u8], depth: u32) -> Os {
     if depth == 0 || data.len() < 2 || rng.chance(1, 3) { return Os::Prim(data.to_vec()) }
     let mut parts = Vec::new(); let mut i = 0;
     while i < data.len() { let n = rng.range(1, (data.len() - i).min(7) as u64) as usize; parts.push(segment(rng, &data[i..i + n], depth - 1)); if rng.chance(1, 5) { parts.push(Os::Prim(vec![])); } i += n; }
@@ -195,6 +195,31 @@ pub fn run_grants(em: &mut Emitter, rng: &mut Rng, thorough: bool) {
 }
 
 // ---------------- C08 ----------------
+fn fault_cases(em: &mut Emitter, mode: u8, ps: &[Prog], data: &[u8], policy: Policy) {
+    // number of requests of the fault-free run
+    let (n, clean) = { let mut s = FlexSource::new(data, policy, None); let (k, log, _) = run_on(mode, ps, &mut s); (s.reqs, (k, log, s.left())) };
+    let mut code = Vec::new(); enc_progs(ps, &mut code);
+    for k in 1..=(n + 1) {
+        let (ps2, data2, clean2) = (ps.to_vec(), data.to_vec(), clean.clone());
+        em.case(801, &[num_arg(mode), ints_of(&code), bytes_arg(data), num_arg(k), num_arg(n)], move || {
+            let r = catch(|| { let mut s = FlexSource::new(&data2, policy, Some(k)); let (kind, log, msg) = run_on(mode, &ps2, &mut s); (kind, log, msg, s.left()) });
+            match r {
+                Some((kind, log, msg, left)) => {
+                    let obs: Vec<i128> = if kind == 0 { let mut v = vec![0, left as i128]; v.extend(log.clone()); v } else { vec![kind as i128] };
+                    let orc = if k <= n {
+                        if kind == 2 && msg.as_deref() == Some(&format!("injected source failure #{}", k)) { Oracle::Pass }
+                        else if kind == 2 { Oracle::Fail("a-different-source-error".into()) }
+                        else if kind == 1 { Oracle::Fail("source-failure-reported-as-content-error".into()) }
+                        else { Oracle::Fail("source-failure-swallowed".into()) }
+                    } else if (kind, log, left) == clean2 { Oracle::Pass } else { Oracle::Fail("fault-beyond-last-request-changes-outcome".into()) };
+                    (ints_of(&obs), orc, true)
+                }
+                None => (Ints::new().n(3), Oracle::Fail("panic-on-source-failure".into()), true),
+            }
+        });
+    }
+}
+
 pub fn run08(em: &mut Emitter, rng: &mut Rng, thorough: bool) {
     let ctxs = [Ctx::Top, Ctx::Definite, Ctx::Indefinite];
     for _ in 0..(if thorough { 8_000 } else { 1_200 }) {
@@ -205,29 +230,35 @@ pub fn run08(em: &mut Emitter, rng: &mut Rng, thorough: bool) {
         let inner = encode_forest(&forest, mode, &mut Some(rng));
         let mut data = wrap(ctx, &inner);
         if rng.chance(1, 5) { data = mutate(rng, &data); }
-        let ps = in_ctx(ctx, random_program(rng, forest.len()));
         let policy = if rng.bool() { Policy::All } else { Policy::Exact };
-        // number of requests of the fault-free run
-        let (n, clean) = { let mut s = FlexSource::new(&data, policy, None); let (k, log, _) = run_on(mode, &ps, &mut s); (s.reqs, (k, log, s.left())) };
-        let mut code = Vec::new(); enc_progs(&ps, &mut code);
-        for k in 1..=(n + 1) {
-            let (ps2, data2, clean2) = (ps.clone(), data.clone(), clean.clone());
-            em.case(801, &[num_arg(mode), ints_of(&code), bytes_arg(&data), num_arg(k), num_arg(n)], move || {
-                let r = catch(|| { let mut s = FlexSource::new(&data2, policy, Some(k)); let (kind, log, msg) = run_on(mode, &ps2, &mut s); (kind, log, msg, s.left()) });
-                match r {
-                    Some((kind, log, msg, left)) => {
-                        let obs: Vec<i128> = if kind == 0 { let mut v = vec![0, left as i128]; v.extend(log.clone()); v } else { vec![kind as i128] };
-                        let orc = if k <= n {
-                            if kind == 2 && msg.as_deref() == Some(&format!("injected source failure #{}", k)) { Oracle::Pass }
-                            else if kind == 2 { Oracle::Fail("a-different-source-error".into()) }
-                            else if kind == 1 { Oracle::Fail("source-failure-reported-as-content-error".into()) }
-                            else { Oracle::Fail("source-failure-swallowed".into()) }
-                        } else if (kind, log, left) == clean2 { Oracle::Pass } else { Oracle::Fail("fault-beyond-last-request-changes-outcome".into()) };
-                        (ints_of(&obs), orc, true)
-                    }
-                    None => (Ints::new().n(3), Oracle::Fail("panic-on-source-failure".into()), true),
-                }
-            });
+        let ps = in_ctx(ctx, random_program(rng, forest.len()));
+        fault_cases(em, mode, &ps, &data, policy);
+        // closures that read exactly the values a parent holds and return, so that the parent's own
+        // end check (exhausted / end-of-contents) issues the last requests; typed and generic reads
+        if ctx != Ctx::Top {
+            let n = forest.len();
+            let k = if rng.chance(1, 4) { n.saturating_sub(1) } else { n };
+            let inner_ps: Vec<Prog> = (0..k).map(|_| match rng.below(4) {
+                0 => Prog::Take { opt: false, kind: 0, exp: None, body: Body::Generic },
+                1 => Prog::Take { opt: true, kind: 0, exp: None, body: Body::Generic },
+                2 => Prog::Skip { variant: 1, fk: 0, fa: 0, fb: 0 },
+                _ => Prog::CaptureOne,
+            }).collect();
+            fault_cases(em, mode, &in_ctx(ctx, inner_ps), &data, policy);
         }
+    }
+    // typed leaves inside each kind of parent
+    for _ in 0..(if thorough { 4_000 } else { 600 }) {
+        let mode = rng.below(3) as u8;
+        let ctx = *rng.pick(&ctxs);
+        if !ctx_ok(mode, ctx) { continue }
+        let ty = rng.below(18) as u8;
+        let n = rng.range(0, 4) as usize; let mut c = rng.bytes(n); if n > 0 && rng.bool() { c[0] = *rng.pick(&[0u8, 1, 0xff, 0x7f, 0x80, 0x2a]); }
+        let tag = match ty { 10 => 1u8, 11 => 5, 12 | 13 => 6, 14 | 15 => 3, _ => 2 };
+        let mut inner = vec![tag, n as u8]; inner.extend(&c);
+        let data = wrap(ctx, &inner);
+        let ps = in_ctx(ctx, vec![Prog::Take { opt: rng.bool(), kind: if ty == 14 || ty == 15 { 0 } else { 1 }, exp: None, body: Body::Typed(ty) }]);
+        let policy = if rng.bool() { Policy::All } else { Policy::Exact };
+        fault_cases(em, mode, &ps, &data, policy);
     }
 }
